@@ -69,9 +69,10 @@ type Case struct {
 	InconsA int         `json:"incons_a,omitempty"`
 	InconsD int         `json:"incons_d,omitempty"`
 	Perturb []int       `json:"perturb,omitempty"`
-	MidRun  *MidRun     `json:"midrun,omitempty"`  // a seed file is modified after validation, while assembling
-	CLI     bool        `json:"cli,omitempty"`     // also drive `desync extract` (needs $VERIF_DESYNC_BIN)
-	Inplace bool        `json:"inplace,omitempty"` // CLI: -k
+	SeedDir int         `json:"seed_dir,omitempty"` // CLI: >0 = index, previous blob and seeds live in one directory given as --seed-dir, index and directory spelled differently (1 rel dir/abs index, 2 abs dir/rel index, 3 dotted, 4 same)
+	MidRun  *MidRun     `json:"midrun,omitempty"`   // a seed file is modified after validation, while assembling
+	CLI     bool        `json:"cli,omitempty"`      // also drive `desync extract` (needs $VERIF_DESYNC_BIN)
+	Inplace bool        `json:"inplace,omitempty"`  // CLI: -k
 }
 
 func applyEdits(b []byte, eds []Edit) []byte {
@@ -252,6 +253,9 @@ func genCase(t *rapid.T) Case {
 	if os.Getenv("VERIF_DESYNC_BIN") != "" && c.MidRun == nil && rapid.IntRange(0, hx.Pick(40, 8)).Draw(t, "cli") == 0 {
 		c.CLI = true
 		c.Inplace = rapid.Bool().Draw(t, "inplace")
+		if rapid.IntRange(0, 2).Draw(t, "seeddir?") == 0 {
+			c.SeedDir = rapid.IntRange(1, 4).Draw(t, "seeddir")
+		}
 	}
 	return c
 }
@@ -694,13 +698,19 @@ var spec = &hx.Spec[Case]{
 	Required: []string{"action:bailout", "action:skip", "action:regenerate", "prior:absent", "prior:empty", "prior:garbage", "prior:longer", "prior:shorter", "prior:older", "prior:exact",
 		"empty-blob", "empty-seed", "alias-seed", "stale-seed", "unopenable-seed", "seed-changed-mid-run", "seed-truncated-mid-run", "clone-on:max<block", "clone-on:min>block", "clone-on:inplace-seed", "clone-on:isolated-small-null-chunk",
 		"chunks-from-seed", "chunks-in-place", "bytes-cloned", "liveness-demanded", "inconsistent-index:size-shift"},
+	// (with $VERIF_DESYNC_BIN: TestMain adds the CLI classes)
 	Gen:      genCase,
 	Run:      run,
 	Journal:  true,
 	Watchdog: 60 * time.Second,
 }
 
-func TestMain(m *testing.M)    { hx.Main(m) }
+func TestMain(m *testing.M) {
+	if os.Getenv("VERIF_DESYNC_BIN") != "" {
+		spec.Required = append(spec.Required, "cli-extract", "cli-extract:seed-dir", "cli-extract:seed-dir:index-inside:other-spelling:previous-blob-present")
+	}
+	hx.Main(m)
+}
 func TestRegress(t *testing.T) { hx.Regress(t, spec) }
 func TestKnown(t *testing.T)   { hx.Known(t, spec) }
 func TestReplay(t *testing.T)  { hx.Replay(t, spec) }
@@ -735,6 +745,15 @@ func cliExtract(o *hx.Outcome, c Case, dir string, blob []byte, idx desync.Index
 		}
 	}
 	ipath := filepath.Join(dir, "target.caibx")
+	out := filepath.Join(dir, "cli-out")
+	sd := filepath.Join(dir, "sd")
+	if c.SeedDir > 0 {
+		// the layout of an in-place update: sd/img.caibx is the new index, sd/img the previous
+		// version, further images and their indexes next to them
+		os.Mkdir(sd, 0o755)
+		ipath = filepath.Join(sd, "img.caibx")
+		out = filepath.Join(sd, "img")
+	}
 	f, _ := os.Create(ipath)
 	idx.WriteTo(f)
 	f.Close()
@@ -743,12 +762,37 @@ func cliExtract(o *hx.Outcome, c Case, dir string, blob []byte, idx desync.Index
 		if b.spec.Kind == "alias" || b.spec.Kind == "dup" {
 			continue
 		}
+		if c.SeedDir > 0 {
+			data, rerr := os.ReadFile(b.path)
+			if rerr != nil {
+				continue // seed-dir skips indexes without a blob next to them
+			}
+			os.WriteFile(filepath.Join(sd, fmt.Sprintf("seed%d", i)), data, 0o644)
+			sf, _ := os.Create(filepath.Join(sd, fmt.Sprintf("seed%d.caibx", i)))
+			bi := b.index
+			bi.WriteTo(sf)
+			sf.Close()
+			continue
+		}
 		sp := filepath.Join(dir, fmt.Sprintf("cliseed%d.caibx", i))
 		sf, _ := os.Create(sp)
 		bi := b.index
 		bi.WriteTo(sf)
 		sf.Close()
 		args = append(args, "--seed", sp+":"+b.path)
+	}
+	iarg, oarg := ipath, out
+	switch c.SeedDir {
+	case 1:
+		args = append(args, "--seed-dir", "sd")
+	case 2:
+		args = append(args, "--seed-dir", sd)
+		iarg, oarg = "sd/img.caibx", "sd/img"
+	case 3:
+		args = append(args, "--seed-dir", "sd/../sd/")
+		iarg = "./sd/img.caibx"
+	case 4:
+		args = append(args, "--seed-dir", sd)
 	}
 	switch c.Action % 3 {
 	case 1:
@@ -759,16 +803,16 @@ func cliExtract(o *hx.Outcome, c Case, dir string, blob []byte, idx desync.Index
 	if c.Inplace {
 		args = append(args, "-k")
 	}
-	out := filepath.Join(dir, "cli-out")
 	if prior != nil {
 		os.WriteFile(out, prior, 0o644)
 	}
 	var before os.FileInfo
 	before, _ = os.Lstat(out)
-	args = append(args, ipath, out)
+	args = append(args, iarg, oarg)
 	ctx, cancel := context.WithTimeout(context.Background(), 120*time.Second)
 	defer cancel()
 	cmd := exec.CommandContext(ctx, bin, args...)
+	cmd.Dir = dir
 	cmd.Env = []string{"HOME=" + dir, "TMPDIR=" + dir, "PATH=/usr/bin:/bin"}
 	cout, cerr := cmd.CombinedOutput()
 	if ctx.Err() != nil {
@@ -776,6 +820,12 @@ func cliExtract(o *hx.Outcome, c Case, dir string, blob []byte, idx desync.Index
 		return
 	}
 	o.Class("cli-extract")
+	if c.SeedDir > 0 {
+		o.Class("cli-extract:seed-dir")
+		if c.SeedDir < 4 && prior != nil {
+			o.Class("cli-extract:seed-dir:index-inside:other-spelling:previous-blob-present")
+		}
+	}
 	if cerr == nil {
 		got, _ := os.ReadFile(out)
 		bad := ""
